@@ -16,8 +16,8 @@ ASSUMPTIONS = [
     'so that directory permission bits matter; ownership, ACLs, file flags are not compared',
     'xattrs, sparse-hole detection (FIEMAP/SEEK_HOLE) and the allocation unit are compared by the differential only',
     'symlink modes -L/-H and traversal filters are not modelled (only -P, the default, is)',
-    'xar archives are read back through a sequential source: from a seekable file the xar reader fails for some heap '
-    'offsets ("Decompressed size error", present in the unchanged tree, see corpus/C12/untriaged-xar-seekable.txt)',
+    'xar is driven by corpus cases only: on larger trees the xar reader sometimes fails with "Decompressed size error" '
+    'depending on the archive byte layout (unchanged tree too; untriaged, corpus/C12/untriaged-xar-seekable.txt)',
     'formats driven: pax, gnutar, cpio newc, zip, 7zip, xar; iso9660 (needs rockridge=strict, has no entry for ".") and '
     'mtree (metadata only) are not driven; paths stay below PATH_MAX (names up to NAME_MAX, depth bounded)',
 ]
@@ -242,7 +242,10 @@ class TreeEng(Engine):
     # -- generation -------------------------------------------------------
     def scenario(self, rng, tier, i, big_tree=False):
         ops = []
-        lib_fmts = ['pax', 'gnutar', 'newc'] if tier == 'quick' else list(FORMATS)
+        # xar is driven by the corpus cases only: on larger trees the xar reader sometimes stops with "Decompressed size
+        # error" depending on the byte layout of the archive (TOC length, i.e. timestamps) - present in the unchanged
+        # tree, seen with seekable and sequential sources, not minimised: corpus/C12/untriaged-xar-seekable.txt
+        lib_fmts = ['pax', 'gnutar', 'newc'] if tier == 'quick' else [f for f in FORMATS if f != 'xar']
         ops.append('walk')
         for fmt in rng.sample(lib_fmts, 2 if tier == 'quick' else 4):
             flags = rng.choice(['pt', 'pts', 'pt', 'pts', 't', 'p', 'ptsx'])
